@@ -16,6 +16,7 @@ import json, os, re, subprocess, sys, tempfile, shutil, time, hashlib
 ENV = dict(os.environ, GOFLAGS="-mod=mod", GOPROXY="off", GOSUMDB="off", GOTOOLCHAIN="local", VERIF_NO_EVIDENCE="1")
 REPO = "/repo"
 ALL = ["C%02d" % i for i in range(1, 21)]
+FIRST_N = {"result.go": 4, "builder.go": 6, "batch.go": 9, "flyt.go": 7}
 
 def sh(cmd, cwd=None, timeout=900, env=ENV):
     p = subprocess.run(cmd, shell=True, cwd=cwd, env=env, stdout=subprocess.PIPE, stderr=subprocess.STDOUT, text=True, timeout=timeout)
@@ -136,6 +137,7 @@ def enclosing_funcs(lines):
 def main():
     a = sys.argv[1:]
     verif, files, limit, budget, shards, out, prev = "/verif", None, 0, "25s", "16", None, None
+    resume = False
     while a:
         x = a.pop(0)
         if x == "--verif": verif = a.pop(0)
@@ -145,6 +147,7 @@ def main():
         elif x == "--shards": shards = a.pop(0)
         elif x == "--out": out = a.pop(0)
         elif x == "--only-survivors-of": prev = a.pop(0)
+        elif x == "--resume": resume = True
     files = files or [f for f in sorted(os.listdir(REPO)) if f.endswith(".go") and not f.endswith("_test.go")]
     want = None
     if prev:
@@ -152,6 +155,10 @@ def main():
     work = tempfile.mkdtemp(prefix="automut-")
     env = dict(ENV, VERIF_BUDGET=budget, VERIF_SHARDS=shards)
     results, t00 = [], time.time()
+    done = set()
+    if resume and out and os.path.exists(out):
+        results = json.load(open(out))
+        done = {r["id"] for r in results}
     try:
         n = 0
         for fname in files:
@@ -165,7 +172,7 @@ def main():
                     if new == line:
                         continue
                     mid = "%s:%d %s" % (fname, i + 1, desc)
-                    if want is not None and mid not in want:
+                    if (want is not None and mid not in want) or mid in done:
                         continue
                     n += 1
                     if limit and n > limit:
@@ -187,7 +194,10 @@ def main():
                         else:
                             rec["status"] = "survived"; rec["tried"] = []
                             e2 = dict(env, VERIF_OVERLAY="%s=%s" % (os.path.join(REPO, fname), mfile))
-                            for prop in props_for(fname, funcs[i]):
+                            order = props_for(fname, funcs[i])
+                            for k, prop in enumerate(order):
+                                if k >= len(order) - (20 - FIRST_N.get(fname, 6)):
+                                    e2["VERIF_BUDGET"] = "8s"  # the checks that are not about this code: a short look
                                 rc, o = sh("timeout 400 %s/bin/flytmc check %s --tier quick 2>&1 | tail -40" % (verif, prop), cwd=verif, env=e2)
                                 rec["tried"].append(prop)
                                 if "VIOLATION" in o:
